@@ -38,7 +38,7 @@ PROPERTIES = {
         "explanation": "R-TRUTHY over every boolean context of every function; R-FILLFLOW over the fill sinks; R-PARALLEL over the min_count branch; R-IDENTITYCODES: labels are their own codes only for integer labels and the index 0..n-1, both ends masked",
     },
     "C12": {
-        "rules": [rule_lazy],
+        "rules": [rule_lazy, M.rule_combinebypass],
         "thorough": [selftest, seeded_regression],
         "technique": "predicate abstraction over dask-ness atoms on the CFG (bitset valuations, no solver) with function summaries",
         "level_text": "Static, all-paths: on every path of the API entry points (and of every function they call while building a "
@@ -79,7 +79,7 @@ PROPERTIES = {
         "explanation": "R-RAISE, R-DEFASSIGN, R-REGKEY, R-KWSIG, R-ASSERT, R-CODEWIDTH (sentinel stores cannot overflow a narrow code dtype), R-LOOPSTORE (the planner cannot lose a cohort and trip its own assert)",
     },
     "C02": {
-        "rules": [M.rule_plan, rule_algebra, rule_cover, PR.rule_pairs_dummyaxis, rule_token, PR.rule_codelabels],
+        "rules": [M.rule_plan, rule_algebra, rule_cover, PR.rule_pairs_dummyaxis, rule_token, PR.rule_codelabels, M.rule_combinebypass],
         "thorough": [selftest, seeded_regression],
         "technique": "CFG must-pass-through (finalizer), resolved embeddings of combine/aggregate callables, access-path agreement",
         "level_text": "Static, all-paths: every plan funnels into the one finalizer on every path, only the two sibling combine algorithms "
